@@ -131,6 +131,7 @@ def run_mapping(
                         "unable to write to "
                         f"{pth.resolve().absolute()}")
 
+    tmp_result_dir = None
     try:
         if config['tmp_dir'] is not None:
             tmp_result_dir = tempfile.mkdtemp(
@@ -187,6 +188,8 @@ def run_mapping(
         log.add_msg(traceback_msg)
         raise
     finally:
+        # (also when the run ended with an error)
+        _clean_up(tmp_result_dir)
         _clean_up(tmp_dir)
         log.info("CLEANING UP")
         if log_path is not None:
